@@ -10,7 +10,9 @@ import (
 	"time"
 
 	"github.com/oasisprotocol/oasis-core/go/common/crypto/hash"
+	"github.com/oasisprotocol/oasis-core/go/storage/mkvs"
 	"github.com/oasisprotocol/oasis-core/go/storage/mkvs/checkpoint"
+	dbapi "github.com/oasisprotocol/oasis-core/go/storage/mkvs/db/api"
 	"github.com/oasisprotocol/oasis-core/go/storage/mkvs/node"
 	"github.com/oasisprotocol/oasis-core/go/verifshim/sched"
 
@@ -87,6 +89,10 @@ func c12concScenarios(r *ev.Run, dir string) []conc.Scenario {
 		// a chunk with a matching digest but a failing proof aborts the restore while another chunk is in flight
 		{"2chunks/forged t0[forged0] t1[1]", 2, [][]c12call{{forged(0)}, {g(1)}}, bound},
 		{"3chunks/forged t0[0,forged2] t1[1]", 3, [][]c12call{{g(0), forged(2)}, {g(1)}}, bound},
+		// the same chunk sent by two callers at once (a duplicate in flight); the caller that is told
+		// "done" finalizes at once, as a driver that does not wait for stragglers would
+		{"2chunks/dup t0[0,1] t1[1]", 2, [][]c12call{{g(0), g(1)}, {g(1)}}, bound},
+		{"2chunks/dup t0[1,0] t1[0]", 2, [][]c12call{{g(1), g(0)}, {g(0)}}, bound},
 	}
 	if r.Thorough() {
 		plans = append(plans,
@@ -132,6 +138,18 @@ type c12concResult struct {
 }
 
 func c12concInstance(tr c12tree, backend string, cp *c12cp, threads [][]c12call) (*conc.Instance, error) {
+	dup := false
+	seenChunk := map[int]bool{}
+	for _, calls := range threads {
+		for _, c := range calls {
+			if !c.Corrupt && !c.BadProof {
+				if seenChunk[c.Chunk] {
+					dup = true
+				}
+				seenChunk[c.Chunk] = true
+			}
+		}
+	}
 	ndb, err := kv.OpenDB(backend, "")
 	if err != nil {
 		return nil, err
@@ -165,6 +183,7 @@ func c12concInstance(tr c12tree, backend string, cp *c12cp, threads [][]c12call)
 	var results []c12concResult
 	var during []string
 	var mu sync.Mutex // the same bodies also run free under the race detector
+	finalized := false
 	inst := &conc.Instance{Close: func() { ndb.Close() }}
 	for ti, calls := range threads {
 		ti, calls := ti, calls
@@ -182,7 +201,15 @@ func c12concInstance(tr c12tree, backend string, cp *c12cp, threads [][]c12call)
 				mu.Lock()
 				results = append(results, c12concResult{ti, c, done, err})
 				mu.Unlock()
-				if !done {
+				if done && dup {
+					if ferr := ndb.Finalize([]node.Root{root}); ferr != nil {
+						mu.Lock()
+						during = append(during, "Finalize by the caller that was told the restore is complete failed: "+ferr.Error())
+						mu.Unlock()
+					}
+					finalized = true
+				}
+				if !done && !dup { // with duplicates in flight the other caller may legitimately have finalized already
 					if w := visibleDuringRestore(ndb, root); w != "" {
 						mu.Lock()
 						during = append(during, w)
@@ -239,6 +266,8 @@ func c12concInstance(tr c12tree, backend string, cp *c12cp, threads [][]c12call)
 		dones := 0
 		for _, x := range results {
 			switch {
+			case dup && x.err != nil && (errors.Is(x.err, checkpoint.ErrChunkAlreadyRestored) || errors.Is(x.err, checkpoint.ErrNoRestoreInProgress) || errors.Is(x.err, dbapi.ErrAlreadyFinalized) || errors.Is(x.err, dbapi.ErrMultipartInProgress) || errors.Is(x.err, dbapi.ErrInvalidMultipartVersion)):
+				// a duplicate that lost the race
 			case x.call.Corrupt:
 				if x.err == nil {
 					return fmt.Sprintf("corrupted chunk %d was accepted", x.call.Chunk)
@@ -258,7 +287,7 @@ func c12concInstance(tr c12tree, backend string, cp *c12cp, threads [][]c12call)
 		if dones != 1 {
 			return fmt.Sprintf("completion was signalled %d times for one restore of %d chunks", dones, len(cp.chunks))
 		}
-		if results[len(results)-1].done == false {
+		if !dup && results[len(results)-1].done == false {
 			// the caller that finishes last must be the one that is told the restore is complete,
 			// otherwise the driver finalizes while a chunk import is still running
 			return "completion was signalled to a caller that did not finish last"
@@ -266,12 +295,60 @@ func c12concInstance(tr c12tree, backend string, cp *c12cp, threads [][]c12call)
 		if rs.GetCurrentCheckpoint() != nil {
 			return "restorer still reports a checkpoint in progress after completion"
 		}
-		if err := ndb.Finalize([]node.Root{root}); err != nil {
-			return "Finalize after restore failed: " + err.Error()
+		if !finalized {
+			if err := ndb.Finalize([]node.Root{root}); err != nil {
+				return "Finalize after restore failed: " + err.Error()
+			}
 		}
-		return readBack(ndb, root, tr.Contents)
+		if w := readBack(ndb, root, tr.Contents); w != "" {
+			return w
+		}
+		return c12After(ndb, root, tr.Contents)
 	}
 	return inst, nil
+}
+
+// c12After: the restored database must stay usable: a later multipart session that is started
+// and aborted must not touch the restored version, and a new version can be built on top of it.
+func c12After(ndb dbapi.NodeDB, root node.Root, c kv.Contents) string {
+	if err := ndb.StartMultipartInsert(root.Version + 3); err != nil {
+		return "starting a later multipart insert failed: " + err.Error()
+	}
+	if err := ndb.AbortMultipartInsert(); err != nil {
+		return "aborting a later multipart insert failed: " + err.Error()
+	}
+	if w := readBack(ndb, root, c); w != "" {
+		return "after a later multipart session was started and aborted: " + w
+	}
+	t := mkvs.NewWithRoot(nil, ndb, root)
+	defer t.Close()
+	c2 := c.Clone()
+	if err := t.Insert(kv.Ctx, []byte{0x42}, []byte("next")); err != nil {
+		return "insert on top of the restored root failed: " + err.Error()
+	}
+	c2["\x42"] = []byte("next")
+	for _, k := range c.SortedKeys() {
+		if err := t.Remove(kv.Ctx, []byte(k)); err != nil {
+			return "remove on top of the restored root failed: " + err.Error()
+		}
+		delete(c2, k)
+		break
+	}
+	_, h, err := t.Commit(kv.Ctx, kv.Namespace, root.Version+1)
+	if err != nil {
+		return "commit of the next version on top of the restored root failed: " + err.Error()
+	}
+	next := kv.RootFor(root.Version+1, node.RootTypeState, h)
+	if err := ndb.Finalize([]node.Root{next}); err != nil {
+		return "finalize of the next version failed: " + err.Error()
+	}
+	if w := readBack(ndb, next, c2); w != "" {
+		return "the version built on top of the restored root: " + w
+	}
+	if w := readBack(ndb, root, c); w != "" {
+		return "the restored root after the next version was finalized: " + w
+	}
+	return ""
 }
 
 func runC12Conc(r *ev.Run) {
